@@ -72,12 +72,33 @@ def run(rep, tier_, rng):
             for nm, f in (("digamma", mp.digamma), ("hyp1f1", lambda w: mp.hyp1f1(0.5, 1.5, w * 40)), ("hyp2f1", lambda w: mp.hyp2f1(1, 1, 2, w / 31)),
                           ("besselk", lambda w: mp.besselk(0, abs(w) + 0.1)), ("erfc", lambda w: mp.erfc(w)), ("zeta", lambda w: mp.zeta(w / 3 + 2))):
                 attempt(nm, (x,), (lambda f=f, x=x: f(x)), prec)
+    # directed family: switch-over points between a convergent and an asymptotic series (the asymptotic loop only ends when its
+    # smallest term underflows): exponential integrals around x ~ 0.693*(prec+20), integer-order expint with x > n, Hurwitz zeta
+    # with strongly negative s and an irrational shift
+    for prec in ([30, 53, 100] if quick else [24, 30, 53, 100, 200, 1000]):
+        mp.prec = prec
+        thr = int(0.693 * (prec + 20))
+        xs = [thr + d for d in (-2, -1, 0, 1, 2, 3, 5)] + [thr + 0.5, 2 * thr, 708 if prec >= 1000 else thr + 10]
+        for x in (xs if not quick else rng.sample(xs, 5)):
+            for nm, args in (("e1", (mp.mpf(x),)), ("ei", (mp.mpf(-x),)), ("ei", (mp.mpf(x),)), ("expint", (mp.mpf(1), mp.mpf(x)))):
+                attempt(nm, args, (lambda nm=nm, args=args: getattr(mp, nm)(*args)), prec)
+        orders = [2, 7, 32, 40, 64, 76, 109, 128, 130, 256, 511, 512, 1024]
+        for n in (orders if not quick else rng.sample(orders, 6)):
+            for x in sorted({n + 50, 2 * n - 1, 3 * n, 127, 255}):
+                if quick and rng.random() < 0.4: continue
+                args = (mp.mpf(n), mp.mpf(x)); regime = "integer order n >= 30, x > n" if (n >= 30 and x > n) else "integer order"
+                before = len(slow)
+                attempt("expint", args, (lambda args=args: mp.expint(*args)), prec)
+                if len(slow) > before: slow[-1] = slow[-1] + (regime,)
+        for sre in ([-40.5, -50.5] if quick else [-20.5, -40.5, -50.5, -80.5, -120.5]):
+            for a in (mp.mpf(1) / 3, +mp.pi, mp.mpf(0.7)):
+                attempt("zeta2", (mp.mpf(sre), a), (lambda sre=sre, a=a: mp.zeta(sre, a)), prec)
     mp.prec = p0
     # retry every slow call alone, in its own process, with the hard limit
     src = SOLO % {"harness": os.path.join(VERIF, "harness")}
     hung = []
     def solo(item):
-        name, prec, args = item
+        name, prec, args = item[:3]
         blob = pickle.dumps((name, prec, args)).hex()
         try:
             p = subprocess.run([sys.executable, "-c", src, blob], capture_output=True, text=True, timeout=hard,
@@ -85,14 +106,21 @@ def run(rep, tier_, rng):
             return item, (p.stdout.strip().splitlines() or ["?"])[-1]
         except subprocess.TimeoutExpired:
             return item, "HUNG"
-    solo_items = [s for s in slow if s[0] in sweep.ONE_ARG + sweep.TWO_ARG + ["digamma", "harmonic", "loggamma"]]
+    solo_items = [s for s in slow if s[0] in sweep.ONE_ARG + sweep.TWO_ARG + ["digamma", "harmonic", "loggamma", "expint", "e1", "ei"]]
+    # at most three representatives of one (function, regime) class, so that one defect cannot crowd out the others
+    seen_cls = {}; picked = []
+    for it in solo_items:
+        cls = (it[0], it[3] if len(it) > 3 else "")
+        seen_cls[cls] = seen_cls.get(cls, 0) + 1
+        if seen_cls[cls] <= 3: picked.append(it)
+    solo_items = picked
     from concurrent.futures import ThreadPoolExecutor
     with ThreadPoolExecutor(8) as ex:
         for item, verdict in ex.map(solo, solo_items[:(8 if quick else 64)]):
             if verdict == "HUNG":
                 hung.append(item)
                 rep.violation("%s did not return within %d s at prec %d (no documented exception either)" % (item[0], hard, item[1]),
-                              {"fn": item[0], "prec": item[1], "args": item[2], "limit_s": hard})
+                              {"fn": item[0], "prec": item[1], "args": item[2], "limit_s": hard, "regime": item[3] if len(item) > 3 else "generic"})
     rep.coverage = {
         "obligations": obligations, "discharged": discharged, "checker_cmd": " && ".join(cmds), "trusted_base": trusted + ["SIGALRM watchdog; generous limits (slow is not an alarm: only calls still running after %d s alone in a fresh process)" % hard],
         "evaluations": calls, "distinct_nontrivial": returned,
